@@ -194,7 +194,7 @@ func c17Blame(orig ast.Vertex, out string, r2 drive.Result) string {
 func c17Run(c *core.Ctx) {
 	level := 3
 	if c.Thorough() {
-		level = 4
+		level = 5
 	}
 	for _, fam := range []string{"php7", "php5"} {
 		f := corpus.MustFam(fam)
